@@ -507,6 +507,15 @@ def add_extensions(draw, ctx, clsname, doc, host_type):
     if ver == "2.1" and draw(st.integers(0, 3)) == 0:
         key = "extension-definition--" + uuid_text(ver, draw, upper_ok=False)
         exts[key] = {"extension_type": "property-extension", "some_prop": draw(string_value(ctx.opts)) or "v", "count": draw(st.integers(0, 9))}
+    if ver == "2.1" and ctx.opts.get("toplevel_ext") and draw(st.integers(0, 5)) == 0:
+        # an (unregistered) toplevel-property-extension legitimises additional top-level properties; its position among the
+        # other extension members is semantically irrelevant and therefore drawn
+        key = "extension-definition--" + uuid_text(ver, draw, upper_ok=False)
+        entry = {"extension_type": "toplevel-property-extension"}
+        exts = dict([(key, entry)] + list(exts.items())) if draw(st.booleans()) else dict(list(exts.items()) + [(key, entry)])
+        doc["toplevel_rank"] = draw(st.integers(0, 9))
+        if draw(st.booleans()):
+            doc["toplevel_note"] = draw(string_value(ctx.opts))
     if exts:
         doc["extensions"] = exts
 
